@@ -290,12 +290,45 @@ class Run:
             return None
         if self.selftest is not None:
             return self._selftest_stage(stage, recs, trace_path, module, cfg, prefixes, workers, timeout, heap, env)
-        e = {"VH_TRACE": trace_path}
-        if env:
-            e.update(env)
-        r = run_tlc(module, cfg, env=e, workers=workers, timeout=timeout, heap=heap,
-                    metadir=os.path.join(self.workdir, "md-" + stage))
-        self.cmds.append("VH_TRACE=%s %s" % (trace_path, r.cmd))
+        # large traces are validated in shards (bounded TLC heap); indices are mapped back to the whole trace
+        size = os.path.getsize(trace_path)
+        nshards = max(1, min(64, int(size / 12e6) + 1))
+        if nshards == 1:
+            e = {"VH_TRACE": trace_path}
+            if env:
+                e.update(env)
+            r = run_tlc(module, cfg, env=e, workers=workers, timeout=timeout, heap=heap,
+                        metadir=os.path.join(self.workdir, "md-" + stage))
+            self.cmds.append("VH_TRACE=%s %s" % (trace_path, r.cmd))
+        else:
+            per = (len(recs) + nshards - 1) // nshards
+            r = TlcResult()
+            r.ok = True
+            with open(trace_path) as f:
+                lines = [ln for ln in f if ln.strip()]
+            for k in range(nshards):
+                chunk = lines[k * per:(k + 1) * per]
+                if not chunk:
+                    continue
+                spath = "%s.shard%d" % (trace_path, k)
+                with open(spath, "w") as f:
+                    f.writelines(chunk)
+                e = {"VH_TRACE": spath}
+                if env:
+                    e.update(env)
+                rk = run_tlc(module, cfg, env=e, workers=workers, timeout=timeout, heap=heap,
+                             metadir=os.path.join(self.workdir, "md-%s-%d" % (stage, k)))
+                os.remove(spath)
+                r.cmd = rk.cmd
+                r.wall += rk.wall
+                r.distinct += rk.distinct
+                r.generated += rk.generated
+                r.viols += [(idx + k * per, names) for idx, names in rk.viols]
+                if not rk.ok:
+                    r.ok = False
+                    r.error = rk.error
+                    break
+            self.cmds.append("VH_TRACE=<%d shards of %s> %s" % (nshards, trace_path, r.cmd))
         self.states += r.distinct
         self.transitions += r.generated
         st = {"stage": stage, "module": module, "records": len(recs), "distinct_states": r.distinct,
